@@ -2,7 +2,7 @@ CONSTANTS
   Impl = "intended"
   Codecs = {"h264", "h265"}
   MTUs = {20, 128}
-  Sizes = {"s", "m", "m+", "g1", "g2", "g0"}
+  Sizes = {"s", "m+", "g1", "g2", "g0"}
   MaxNals = 3
   Openers = {FALSE, TRUE}
   Aggs = {TRUE}
